@@ -45,6 +45,11 @@ func c13Lexical(t *rapid.T) *DCase {
 			return ast.Id(vars[n(0, len(vars)-1, "v")])
 		case 1:
 			return ast.Idx(ast.Arr(num(), num()), ast.Num(fmt.Sprint(n(0, 1, "ix"))))
+		case 2:
+			if n(0, 2, "nummethod") == 0 {
+				// a method called on a numeric literal: the literal ends before the member operator
+				return ast.Method(num(), rapid.SampledFrom([]string{"floor", "ceil", "round"}).Draw(t, "nmeth"))
+			}
 		}
 		return num()
 	}
@@ -110,7 +115,8 @@ func c13Lexical(t *rapid.T) *DCase {
 		ast.Func("fnx", []string{"inx"}, ast.Block(ast.Print(), ast.Print(ast.Id("inx")), ast.Return(ast.Bin("-", ast.Id("inx"), ast.Num("1"))))),
 		ast.Rule("pattern", nil, ast.Block(append(stmts, ast.Print(ast.Call(ast.Id("fnx"), ast.Num("3"))))...)),
 	}
-	return &DCase{Prog: ast.Prog(items...), Files: []DFile{{Name: "in", Docs: []string{`[7]`}}}}
+	// half of the programs are written without redundant parentheses (2.5.floor() rather than (2.5).floor())
+	return &DCase{Prog: ast.Prog(items...), Files: []DFile{{Name: "in", Docs: []string{`[7]`}}}, Min: rapid.Bool().Draw(t, "minimalparens")}
 }
 
 func c13Base(t *rapid.T) (*DCase, string) {
@@ -179,7 +185,11 @@ func TestC13(t *testing.T) {
 	}
 	check(rec, "layout-random", scale(8000, 2500000), func(rt *rapid.T) {
 		base, family := c13Base(rt)
-		r := ast.Render(base.Prog, ast.Full)
+		style := ast.Full
+		if base.Min {
+			style = ast.Minimal
+		}
+		r := ast.Render(base.Prog, style)
 		c := &C13Case{Base: base}
 		feats := map[string]bool{}
 		for k := 0; k < nlay; k++ {
